@@ -76,6 +76,8 @@ def extract_reducers(cls):
     for m in methods_of(cls):
         if m.name == '_reducers':
             body = [s for s in m.body if not (isinstance(s, ast.Expr) and isinstance(s.value, ast.Constant))]
+            if len(body) == 1 and isinstance(body[0], ast.Raise):
+                return None   # abstract declaration in a base class
             if len(body) != 1 or not isinstance(body[0], ast.Return) or not isinstance(body[0].value, ast.List):
                 raise TieError('_reducers of %s is not a single `return [..]`' % cls.name)
             names = []
@@ -132,6 +134,16 @@ def fresh_locals(func):
     return fresh
 
 
+MODULE_ALIASES = set()
+
+
+def collect_aliases(tree):
+    for n in ast.walk(tree):
+        if isinstance(n, ast.Import):
+            for a in n.names:
+                MODULE_ALIASES.add(a.asname or a.name.split('.')[0])
+
+
 def writes_in(owner, func):
     out = []
     params = {a.arg for a in func.args.args + func.args.kwonlyargs}
@@ -173,7 +185,8 @@ def writes_in(owner, func):
                 target(t, 'delete')
         elif isinstance(n, ast.Call):
             f = n.func
-            if isinstance(f, ast.Attribute) and f.attr in MUTATORS:
+            if isinstance(f, ast.Attribute) and f.attr in MUTATORS and not (
+                    isinstance(f.value, ast.Name) and f.value.id in MODULE_ALIASES):
                 kind = receiver_kind(f.value, params, fresh)
                 field = f.value.attr if isinstance(f.value, ast.Attribute) else (
                     f.value.id if isinstance(f.value, ast.Name) else '?')
@@ -198,11 +211,11 @@ def set_iterations(owner, func):
     out = []
 
     def is_names(e):
-        for n in ast.walk(e):
-            if isinstance(n, ast.Attribute) and n.attr == '_variable_names':
-                return True
-            if isinstance(n, ast.Name) and n.id in ('variable_names',):
-                return True
+        # the iterable itself is a variable-name set (not merely an expression mentioning one)
+        if isinstance(e, ast.Attribute) and e.attr == '_variable_names':
+            return True
+        if isinstance(e, ast.Name) and e.id in ('variable_names',):
+            return True
         return False
     for n in ast.walk(func):
         if isinstance(n, (ast.For, ast.comprehension)) and is_names(n.iter):
@@ -219,7 +232,21 @@ def set_iterations(owner, func):
     return out
 
 
+def set_creations(owner, func):
+    out = []
+    for n in ast.walk(func):
+        if isinstance(n, (ast.Set, ast.SetComp)):
+            out.append((owner, func.name))
+        if isinstance(n, ast.Call) and isinstance(n.func, ast.Name) and n.func.id in ('set', 'frozenset'):
+            out.append((owner, func.name))
+        if isinstance(n, ast.Call) and isinstance(n.func, ast.Attribute) and \
+                n.func.attr in ('union', 'intersection', 'difference', 'symmetric_difference', 'keys', 'values'):
+            out.append((owner, func.name))
+    return out
+
+
 def generate():
+    set_creates = []
     reducers = []
     bases = []
     value_formula = []
@@ -231,11 +258,13 @@ def generate():
     for path in all_py_files():
         rel = os.path.relpath(path, SRC)
         tree = parse(path)
+        collect_aliases(tree)
         mod = rel[:-3].replace(os.sep, '.')
         for node in tree.body:
             if isinstance(node, ast.FunctionDef):
                 writes += writes_in(mod, node)
                 set_iters += set_iterations(mod, node)
+                set_creates += set_creations(mod, node)
                 for fld in ('_is_fully_reduced', '_evaluation_failed'):
                     if mentions(node, fld):
                         flag_access.append((mod, node.name, fld))
@@ -253,6 +282,7 @@ def generate():
                 for m in methods_of(cls):
                     writes += writes_in(cls.name, m)
                     set_iters += set_iterations(cls.name, m)
+                    set_creates += set_creations(cls.name, m)
                     if m.name == '_value_formula':
                         calls = mf_call_in(m)
                         if len(calls) == 1:
@@ -350,6 +380,7 @@ def generate():
                  coq_list(['(%s, %s, %s)' % tuple(coq_str(x) for x in w) for w in sorted(set(flag_access))]) + '.')
     lines.append('Definition gen_set_iterations : list (string * string * string) := ' +
                  coq_list(['(%s, %s, %s)' % tuple(coq_str(x) for x in w) for w in sorted(set(set_iters))]) + '.')
+    lines.append('Definition gen_set_creations : list (string * string) := ' + pairs(sorted(set(set_creates))) + '.')
     lines.append('Definition gen_public : list string := ' + coq_list([coq_str(p) for p in public]) + '.')
     lines.append('Definition gen_mf_names : list string := ' + coq_list([coq_str(p) for p in mf_names]) + '.')
     return '\n'.join(lines) + '\n'
